@@ -309,6 +309,9 @@ pub fn run(ctx: &Ctx) -> Report {
             }
         };
         let out = shape.d();
+        if let Some(which) = crate::dump::accessor_disagreement(&shape) {
+            rep.violation(&format!("accessors/{}/{}", type_name(ty), which), &case, J::obj(vec![("shape", out.to_json())]));
+        }
         rep.nontrivial(&format!("{}:{:?}:{}", ty, input.iter().map(|(k, v)| (*k, v.len())).collect::<Vec<_>>(), regime));
         if ty == 31 {
             check_multipatch(&input, &out, &case, rep);
